@@ -16,7 +16,7 @@ SameRecord(want, ev) ==
   /\ FClose(FSum(ev.mf), One, Zero, F("1e-12"))
 Complaint(i, ev) ==
   LET v == P!Verdict(ev.b, Weight) IN
-  (IF ev.loc1 # ev.loc0 THEN {[prop |-> "C07", line |-> i, bytes |-> ev.b, why |-> "the numeric locale was changed by parsing", group |-> ev.g]} ELSE {})
+  (IF ev.loc1 # ev.loc0 THEN {[prop |-> "C07", line |-> i, bytes |-> ev.b, why |-> "the process locale was changed by parsing", group |-> ev.g]} ELSE {})
   \cup (IF v.ok THEN (IF SameRecord(v, ev) THEN {} ELSE {[prop |-> "C07", line |-> i, bytes |-> ev.b, group |-> ev.g, why |-> "well-formed formula: rejected or wrong composition", reason |-> "W",
                                                          got |-> [ok |-> ev.ok, el |-> IF ev.ok = 1 THEN ev.el ELSE <<>>], want |-> [el |-> v.el, n |-> [k \in 1..Len(v.n) |-> FStr(v.n[k])]]]})
         ELSE IF v.why = "undecided" THEN {}
